@@ -27,11 +27,18 @@ def run_tlc_parallel(jobs):
 
 
 def capped_replay(rep, binary, args, behaviours, *, shards=8, timeout=900, label="replay",
-                  nontrivial=lambda b: True, env_extra=None, cap=2, size=len):
+                  nontrivial=lambda b: True, env_extra=None, cap=2, size=len, wrap=True):
+    """wrap=False (added for C19's scaled replays): every element of `behaviours` is already an input object
+    {"beh": ..., further fields for the harness}; it is sent with "n" added, and `nontrivial` and the case
+    accounting see the whole object (the same behaviour at another scale is another case); `size` still gets
+    the "beh" part."""
     if not behaviours:
         rep.infra_error("%s: no behaviours to replay" % label)
         return []
-    items = [dict(n=i, beh=b) for i, b in enumerate(behaviours)]
+    if wrap:
+        items = [dict(n=i, beh=b) for i, b in enumerate(behaviours)]
+    else:
+        items = [dict(b, n=i) for i, b in enumerate(behaviours)]
     outs, meta = harness.run_sharded(binary, args, items, shards=shards, timeout=timeout, env_extra=env_extra)
     results, begun = {}, set()
     for o in outs:
@@ -99,7 +106,7 @@ def capped_replay(rep, binary, args, behaviours, *, shards=8, timeout=900, label
         if len(group) > cap and reproduced:
             d = rep.cov.setdefault("further_failures_same_key", {})
             d[key] = d.get(key, 0) + len(group) - cap
-    done = [items[i]["beh"] for i in results if results[i].get("ok")]
+    done = [items[i]["beh"] if wrap else behaviours[i] for i in results if results[i].get("ok")]
     rep.add_cases(done, nontrivial=nontrivial)
     trunc = sum(1 for r in results.values() if r.get("truncated"))
     if trunc:
